@@ -216,7 +216,7 @@ fn experiment(s: &Scenario, j: u64, post: &Model) -> Verdict {
         let r = battery(&m, &o, &pre2, &post2, &[9_999, 1 << 33, 77]);
         *r2.lock().unwrap() = Some(r);
     });
-    let verdict = match prober.wait_done(6_000) {
+    let verdict = match prober.wait_done(30_000) {
         Ok(()) => {
             let steps = prober.gate.steps.load(std::sync::atomic::Ordering::SeqCst);
             let locks = prober.gate.lock_sites.load(std::sync::atomic::Ordering::SeqCst);
@@ -316,7 +316,7 @@ fn third_party(out: &mut Outcome) -> Result<(), String> {
         let r = battery(&m3, &other, &pre2, &post2, &[99]);
         *r2.lock().unwrap() = Some(r);
     });
-    let res = prober.wait_done(6_000);
+    let res = prober.wait_done(30_000);
     let locks = prober.gate.lock_sites.load(std::sync::atomic::Ordering::SeqCst);
     r1.gate.release();
     if res.is_err() {
